@@ -12,6 +12,7 @@ ASSUMPTIONS = [
     '(symbolic float arithmetic costs seconds per path here)',
     'if Python itself raises for some position the obligation is vacuous for that input (interpretation table, DESIGN.md 5.0)',
     'broadcast methods: string/date/int/float elements and arguments from menus; one obligation per wrapper/proxied name, enumerated from the classes at run time',
+    'str/date arithmetic (vector and table as left operand) and the same-object form v op v are menu-bounded (2 elements from the listed menus)',
 ]
 
 OPS = {'add': operator.add, 'sub': operator.sub, 'mul': operator.mul, 'truediv': operator.truediv,
